@@ -51,6 +51,42 @@
 (* CounterOK of the design: no unit is recorded on a counter object that   *)
 (* is replaced afterwards), so every later "probe" admits exactly          *)
 (* thr - live further entries - after all have exited: exactly thr.        *)
+(* Reload (Reload of HotParamConc): "reload" = the rule table was replaced *)
+(* in the middle of the history (hotspot.LoadRules, LoadRulesOfResource,   *)
+(* or ClearRules followed by LoadRules) while entries are live.  For every *)
+(* resource the spec keeps the rule version `ver' (bumped when its rule    *)
+(* changed) and `base' = the version with which the counters in use        *)
+(* started: a reload brings FRESH counters for a resource when a statistic *)
+(* parameter of its rule changed (capacity), when the rule was removed and *)
+(* loaded again (clear), or when the resource had no rule before; an       *)
+(* identical or merely modified rule (thresholds, items, selector) KEEPS   *)
+(* the counters (the clause of C14).  Every live entry is stamped with the *)
+(* version it was admitted under and keeps the value it was admitted with. *)
+(* As in the design spec, what the statement leaves open after a reload    *)
+(* with fresh counters is accepted both ways: the figure a decision for    *)
+(* (res, v) is taken on lies in                                            *)
+(*     lo = live entries for v admitted since the counters in use started  *)
+(*     hi = all live entries for v                                         *)
+(* (lo = hi in a trace without such a reload: every judgement is then      *)
+(* exactly the old one):                                                   *)
+(*   decision   admitted only if lo < thr, refused only if hi >= thr       *)
+(*   tv         a rejection reports f + 1 for a figure f, thr <= f, in     *)
+(*              lo..hi                                                     *)
+(*   probe      between thr - hi and thr - lo further entries are admitted *)
+(*   cap        counts the entries admitted under the rule version in force*)
+(* In particular (FigureInRange of the design spec) an entry admitted      *)
+(* BEFORE the reload, whenever it exits, never makes room for more than    *)
+(* thr - lo entries: it releases the unit it occupied, not a unit of the   *)
+(* entries admitted after the reload.  `stale' remembers the resources on  *)
+(* which such an earlier entry has exited since the counters in use        *)
+(* started; a mismatch reports it together with `over' (the observed       *)
+(* outcome needs a figure BELOW lo) - the check classifies by these two.   *)
+(* A reload that changes the selector of a rule (position / attachment     *)
+(* key) keeps the counters; an entry in flight keeps the value it was      *)
+(* admitted with and releases that unit (Reload with sel of the design     *)
+(* spec).  `resel' remembers the resources on which an entry has exited    *)
+(* whose arguments, read with the rule in force at its exit, no longer     *)
+(* give the value it was admitted with; a mismatch reports it.             *)
 (* The abstract state follows the OBSERVED outcome, so it stays in step    *)
 (* with the real code after a reported mismatch.  Many traces are          *)
 (* concatenated; "new" starts one; the first mismatch of a trace is        *)
@@ -65,11 +101,14 @@ VARIABLES
     live,     \* id -> [res, v, args] of the live entries
     seen,     \* <<res, v>> pairs requested so far in this trace
     g,        \* [tr, rules] of the running trace
-    pend,     \* id -> [res, v, args, adm, n, first] of the callers parked between check and record
+    pend,     \* id -> [res, v, args, lo, hi, thr, lim, first] of the callers parked between check and record
     peak,     \* largest number of callers inside the admission path at the same time so far in this trace
+    rv,       \* [ver, base]: resource name -> rule version in force / version with which the counters in use started (absent: 0)
+    stale,    \* resources on which an entry admitted before the counters in use started has exited since
+    resel,    \* resources on which an entry has exited that the rule in force then read as another value than it was admitted with
     failed
 
-tvars == <<l, live, seen, g, pend, peak, failed>>
+tvars == <<l, live, seen, g, pend, peak, rv, stale, resel, failed>>
 Ev == Trace[l]
 Has(r, f) == f \in DOMAIN r
 
@@ -77,18 +116,31 @@ Ruled(res)  == res \in DOMAIN g.rules
 RuleOf(res) == g.rules[res]
 VOf(e) == IF Ruled(e.res) THEN Sel(e.args, e.atts, RuleOf(e.res).idx, RuleOf(e.res).key) ELSE None
 Thr(res, v) == ThrOf(RuleOf(res).items, RuleOf(res).thr, v)
-Count(lv, res, v) == Cardinality({ id \in DOMAIN lv : lv[id].res = res /\ lv[id].v = v })
-\* the admission predicate of HotParamConc over the set of live entries
-Admit(lv, res, v) == v = None \/ ~Ruled(res) \/ Count(lv, res, v) < Thr(res, v)
+Get(f, k) == IF k \in DOMAIN f THEN f[k] ELSE 0
+Ver(res)  == Get(rv.ver, res)
+Base(res) == Get(rv.base, res)
+Limited(res, v) == v # None /\ Ruled(res)
+\* hi: all live entries for the value; lo: those admitted since the counters in use started (LiveFor / LiveSince of HotParamConc)
+Count(lv, res, v)      == Cardinality({ id \in DOMAIN lv : lv[id].res = res /\ lv[id].v = v })
+CountSince(lv, res, v) == Cardinality({ id \in DOMAIN lv : lv[id].res = res /\ lv[id].v = v /\ lv[id].ver >= Base(res) })
+CountCur(lv, res, v)   == Cardinality({ id \in DOMAIN lv : lv[id].res = res /\ lv[id].v = v /\ lv[id].ver = Ver(res) })
+Max(a, b) == IF a > b THEN a ELSE b
+\* the admission predicate of HotParamConc over a figure n
+AdmitF(thr, n) == n < thr
+\* is the outcome ok the decision of the admission predicate on SOME figure in lo..hi ?
+DecOK(ok, lo, hi, thr) == \E n \in lo..hi : ok = AdmitF(thr, n)
+\* ... and does a rejection report f + 1 for a figure f in lo..hi that refuses ?
+TvOK(ok, tv, lo, hi, thr) == ok \/ \E n \in lo..hi : ~AdmitF(thr, n) /\ tv = n + 1
+\* ... and if not: does the outcome need a figure BELOW lo (more room than the entries admitted since the reload leave) ?
+DecOver(ok, tv, lo, thr) == IF ok THEN ~AdmitF(thr, lo) ELSE tv < Max(lo, thr) + 1
 
 \* what every live entry must read back: the arguments it was opened with
 LiveArgsOK(obs, lv) ==
     /\ Len(obs) = Cardinality(DOMAIN lv)
     /\ \A i \in DOMAIN obs : obs[i].id \in DOMAIN lv /\ obs[i].args = lv[obs[i].id].args
 ExpLive(lv) == [id \in DOMAIN lv |-> lv[id].args]
-\* Capped of HotParamConc: at most thr + (k - 1) live entries for a value, k = callers that overlapped
-Max(a, b) == IF a > b THEN a ELSE b
-CapOK(lv, res, v, k) == v = None \/ ~Ruled(res) \/ Count(lv, res, v) <= Thr(res, v) + Max(k - 1, 0)
+\* Capped of HotParamConc: at most thr + (k - 1) live entries for a value admitted under the rule in force, k = callers that overlapped
+CapOK(lv, res, v, k) == v = None \/ ~Ruled(res) \/ CountCur(lv, res, v) <= Thr(res, v) + Max(k - 1, 0)
 
 Judge(ok, expected) ==
     IF failed \/ ok THEN failed' = failed
@@ -104,18 +156,24 @@ TNew ==
     /\ g' = [tr |-> Ev.tr, rules |-> Ev.rules]
     /\ pend' = << >>
     /\ peak' = 0
+    /\ rv' = [ver |-> << >>, base |-> << >>]
+    /\ stale' = {}
+    /\ resel' = {}
     /\ failed' = FALSE
 
 TReq ==
     /\ IsEvent("req")
     /\ LET v     == VOf(Ev)
-           n     == IF v = None \/ ~Ruled(Ev.res) THEN 0 ELSE Count(live, Ev.res, v)
-           adm   == Admit(live, Ev.res, v)
-           live2 == IF Ev.ok THEN live @@ (Ev.id :> [res |-> Ev.res, v |-> v, args |-> Ev.args]) ELSE live
+           lim   == Limited(Ev.res, v)
+           hi    == IF lim THEN Count(live, Ev.res, v) ELSE 0
+           lo    == IF lim THEN CountSince(live, Ev.res, v) ELSE 0
+           thr   == IF lim THEN Thr(Ev.res, v) ELSE -1
+           live2 == IF Ev.ok THEN live @@ (Ev.id :> [res |-> Ev.res, v |-> v, args |-> Ev.args, atts |-> Ev.atts, ver |-> Ver(Ev.res)]) ELSE live
            pk    == Max(peak, Cardinality(DOMAIN pend) + 1)
            why   == IF Has(Ev, "panic") /\ Ev.panic THEN "panic"
-                    ELSE IF Ev.ok # adm THEN "decision"
-                    ELSE IF ~Ev.ok /\ Ev.tv # n + 1 THEN "tv"
+                    ELSE IF ~lim /\ ~Ev.ok THEN "decision"
+                    ELSE IF lim /\ ~DecOK(Ev.ok, lo, hi, thr) THEN "decision"
+                    ELSE IF lim /\ ~TvOK(Ev.ok, Ev.tv, lo, hi, thr) THEN "tv"
                     ELSE IF ~CapOK(live2, Ev.res, v, pk) THEN "cap"
                     ELSE IF ~LiveArgsOK(Ev.live, live2) THEN "live-args"
                     ELSE "ok"
@@ -123,18 +181,21 @@ TReq ==
            /\ peak' = pk
            /\ seen' = seen \cup {<<Ev.res, v>>}
            /\ Judge(why = "ok",
-                    [why |-> why, admit |-> adm, inflight |-> n, v |-> v,
-                     thr |-> IF v = None \/ ~Ruled(Ev.res) THEN -1 ELSE Thr(Ev.res, v),
-                     first |-> (<<Ev.res, v>> \notin seen), tv |-> n + 1, live |-> ExpLive(live2)])
-    /\ UNCHANGED <<g, pend>>
+                    [why |-> why, admit |-> ~Ev.ok, inflight |-> hi, since |-> lo, v |-> v, thr |-> thr,
+                     first |-> (<<Ev.res, v>> \notin seen), tv |-> hi + 1, live |-> ExpLive(live2),
+                     res |-> Ev.res, stale |-> (Ev.res \in stale), resel |-> (Ev.res \in resel), over |-> (lim /\ DecOver(Ev.ok, Ev.tv, lo, thr))])
+    /\ UNCHANGED <<g, pend, rv, stale, resel>>
 
 \* Check of HotParamConc: a caller has taken its decision and is parked before the statistic slot.  The decision
 \* the property demands is fixed HERE, from the entries live now; it is compared with the outcome at "rec".
 TChk ==
     /\ IsEvent("chk")
-    /\ LET v == VOf(Ev)
-           n == IF v = None \/ ~Ruled(Ev.res) THEN 0 ELSE Count(live, Ev.res, v)
-       IN  /\ pend' = pend @@ (Ev.id :> [res |-> Ev.res, v |-> v, args |-> Ev.args, adm |-> Admit(live, Ev.res, v), n |-> n,
+    /\ LET v   == VOf(Ev)
+           lim == Limited(Ev.res, v)
+       IN  /\ pend' = pend @@ (Ev.id :> [res |-> Ev.res, v |-> v, args |-> Ev.args, atts |-> Ev.atts, lim |-> lim,
+                                         hi |-> IF lim THEN Count(live, Ev.res, v) ELSE 0,
+                                         lo |-> IF lim THEN CountSince(live, Ev.res, v) ELSE 0,
+                                         thr |-> IF lim THEN Thr(Ev.res, v) ELSE -1,
                                          first |-> (<<Ev.res, v>> \notin seen)])
            /\ seen' = seen \cup {<<Ev.res, v>>}
            /\ peak' = Max(peak, Cardinality(DOMAIN pend) + 1)
@@ -142,7 +203,7 @@ TChk ==
            /\ Judge(Ev.id \notin DOMAIN pend /\ Ev.id \notin DOMAIN live /\ LiveArgsOK(Ev.live, live),
                     [why |-> IF Ev.id \in DOMAIN pend \cup DOMAIN live THEN "chk-of-known-entry" ELSE "live-args",
                      live |-> ExpLive(live)])
-    /\ UNCHANGED <<live, g>>
+    /\ UNCHANGED <<live, g, rv, stale, resel>>
 
 \* Record of HotParamConc: the parked caller went through the statistic slot and api.Entry returned
 TRec ==
@@ -151,43 +212,55 @@ TRec ==
          THEN /\ Judge(FALSE, [why |-> "rec-of-unknown-caller"])
               /\ UNCHANGED <<live, pend>>
          ELSE LET p     == pend[Ev.id]
-                  live2 == IF Ev.ok THEN live @@ (Ev.id :> [res |-> p.res, v |-> p.v, args |-> p.args]) ELSE live
+                  live2 == IF Ev.ok THEN live @@ (Ev.id :> [res |-> p.res, v |-> p.v, args |-> p.args, atts |-> p.atts, ver |-> Ver(p.res)]) ELSE live
                   why   == IF Has(Ev, "panic") /\ Ev.panic THEN "panic"
-                           ELSE IF Ev.ok # p.adm THEN "decision"
-                           ELSE IF ~Ev.ok /\ Ev.tv # p.n + 1 THEN "tv"
+                           ELSE IF ~p.lim /\ ~Ev.ok THEN "decision"
+                           ELSE IF p.lim /\ ~DecOK(Ev.ok, p.lo, p.hi, p.thr) THEN "decision"
+                           ELSE IF p.lim /\ ~TvOK(Ev.ok, Ev.tv, p.lo, p.hi, p.thr) THEN "tv"
                            ELSE IF ~CapOK(live2, p.res, p.v, peak) THEN "cap"
                            ELSE IF ~LiveArgsOK(Ev.live, live2) THEN "live-args"
                            ELSE "ok"
               IN  /\ live' = live2
                   /\ pend' = [i \in DOMAIN pend \ {Ev.id} |-> pend[i]]
                   /\ Judge(why = "ok",
-                           [why |-> why, admit |-> p.adm, inflight |-> p.n, v |-> p.v,
-                            thr |-> IF p.v = None \/ ~Ruled(p.res) THEN -1 ELSE Thr(p.res, p.v),
-                            first |-> p.first, tv |-> p.n + 1, live |-> ExpLive(live2),
-                            cap |-> IF p.v = None \/ ~Ruled(p.res) THEN -1 ELSE Thr(p.res, p.v) + Max(peak - 1, 0)])
-    /\ UNCHANGED <<seen, g, peak>>
+                           [why |-> why, admit |-> ~Ev.ok, inflight |-> p.hi, since |-> p.lo, v |-> p.v, thr |-> p.thr,
+                            first |-> p.first, tv |-> p.hi + 1, live |-> ExpLive(live2),
+                            cap |-> IF ~p.lim \/ ~Ruled(p.res) THEN -1 ELSE Thr(p.res, p.v) + Max(peak - 1, 0),
+                            res |-> p.res, stale |-> (p.res \in stale), resel |-> (p.res \in resel), over |-> (p.lim /\ DecOver(Ev.ok, Ev.tv, p.lo, p.thr))])
+    /\ UNCHANGED <<seen, g, peak, rv, stale, resel>>
 
 TExit ==
     /\ IsEvent("exit")
     /\ live' = [i \in DOMAIN live \ {Ev.id} |-> live[i]]
+    \* an entry admitted before the counters in use started leaves: from now on the figure of its resource is at stake
+    /\ stale' = IF Ev.id \in DOMAIN live /\ live[Ev.id].ver < Base(live[Ev.id].res) THEN stale \cup {live[Ev.id].res} ELSE stale
+    \* ... or one whose arguments the rule in force reads as another value than the one it occupies a unit of
+    /\ resel' = IF Ev.id \in DOMAIN live /\ VOf(live[Ev.id]) # live[Ev.id].v THEN resel \cup {live[Ev.id].res} ELSE resel
     /\ Judge(Ev.id \in DOMAIN live /\ LiveArgsOK(Ev.live, live'),
              [why |-> IF Ev.id \in DOMAIN live THEN "live-args" ELSE "exit-of-unknown-entry", live |-> ExpLive(live')])
-    /\ UNCHANGED <<seen, g, pend, peak>>
+    /\ UNCHANGED <<seen, g, pend, peak, rv>>
 
 \* how many further entries for (res, args) are admitted now; they are exited again by the driver
 TProbe ==
     /\ IsEvent("probe")
-    /\ LET v   == VOf(Ev)
-           n   == Count(live, Ev.res, v)
-           exp == IF Thr(Ev.res, v) > n THEN Thr(Ev.res, v) - n ELSE 0
-           why == IF Ev.n # exp THEN "probe"
-                  ELSE IF Ev.tv # Ev.n + n + 1 THEN "probe-tv"
-                  ELSE IF ~LiveArgsOK(Ev.live, live) THEN "live-args" ELSE "ok"
+    /\ LET v    == VOf(Ev)
+           hi   == Count(live, Ev.res, v)
+           lo   == CountSince(live, Ev.res, v)
+           thr  == Thr(Ev.res, v)
+           \* the figure f at the start of the probe lies in lo..hi; Ev.n entries were admitted one after the other (f, f+1, ...
+           \* all below thr), then one was refused (f + Ev.n >= thr) and reported f + Ev.n + 1
+           nOK(f)  == (Ev.n = 0 \/ f + Ev.n - 1 < thr) /\ f + Ev.n >= thr
+           nmin == IF thr > hi THEN thr - hi ELSE 0
+           nmax == IF thr > lo THEN thr - lo ELSE 0
+           why  == IF ~\E f \in lo..hi : nOK(f) THEN "probe"
+                   ELSE IF ~\E f \in lo..hi : nOK(f) /\ Ev.tv = f + Ev.n + 1 THEN "probe-tv"
+                   ELSE IF ~LiveArgsOK(Ev.live, live) THEN "live-args" ELSE "ok"
        IN  /\ v # None /\ Ruled(Ev.res)
-           /\ Judge(why = "ok", [why |-> why, n |-> exp, tv |-> exp + n + 1, v |-> v, inflight |-> n,
-                                 live |-> ExpLive(live)])
+           /\ Judge(why = "ok", [why |-> why, n |-> nmin, nmax |-> nmax, tv |-> nmin + hi + 1, v |-> v, inflight |-> hi, since |-> lo,
+                                 live |-> ExpLive(live), res |-> Ev.res, stale |-> (Ev.res \in stale), resel |-> (Ev.res \in resel),
+                                 over |-> (Ev.n > nmax \/ (Ev.n = nmax /\ Ev.tv < Max(lo, thr) + 1))])
     /\ seen' = seen \cup {<<Ev.res, VOf(Ev)>>}
-    /\ UNCHANGED <<live, g, pend, peak>>
+    /\ UNCHANGED <<live, g, pend, peak, rv, stale, resel>>
 
 \* many goroutines opened and exited entries concurrently; all of them have exited (quiescence).
 \* Nothing is judged here: the probes that follow judge conservation.
@@ -195,24 +268,26 @@ TStress ==
     /\ IsEvent("stress")
     /\ seen' = seen \cup { <<Ev.used[i][1], Ev.used[i][2]>> : i \in DOMAIN Ev.used }
     /\ Judge(live = << >> /\ pend = << >>, [why |-> "stress-with-live-entries"])
-    /\ UNCHANGED <<live, g, pend, peak>>
+    /\ UNCHANGED <<live, g, pend, peak, rv, stale, resel>>
 
 \* Lookup / Create / Record (/ Exit) of G callers of one value, free-running: see the header.  out[i] = [id, ok, tv]
-AdmitN(res, v, n) == v = None \/ ~Ruled(res) \/ n < Thr(res, v)
+AdmitN(res, v, n) == v = None \/ ~Ruled(res) \/ AdmitF(Thr(res, v), n)
 TBurst ==
     /\ IsEvent("burst")
     /\ LET v     == VOf(Ev)
            lim   == v # None /\ Ruled(Ev.res)
-           n0    == IF lim THEN Count(live, Ev.res, v) ELSE 0
+           n0    == IF lim THEN CountSince(live, Ev.res, v) ELSE 0      \* (lo; = hi0 unless a reload brought fresh counters)
+           hi0   == IF lim THEN Count(live, Ev.res, v) ELSE 0
            G     == Len(Ev.out)
            adm   == { i \in 1..G : Ev.out[i].ok }
            a     == Cardinality(adm)
            ids   == { Ev.out[i].id : i \in 1..G }
            \* the decision of caller i is the admission predicate over some number of live entries it can have met
-           okI(i) == \E n \in n0..(n0 + a - (IF i \in adm THEN 1 ELSE 0)) :
+           okI(i) == \E n \in n0..(hi0 + a - (IF i \in adm THEN 1 ELSE 0)) :
                         /\ Ev.out[i].ok = AdmitN(Ev.res, v, n)
                         /\ (~Ev.out[i].ok => Ev.out[i].tv = n + 1)
-           live2 == IF Ev.hold THEN live @@ [id \in { Ev.out[i].id : i \in adm } |-> [res |-> Ev.res, v |-> v, args |-> Ev.args]] ELSE live
+           live2 == IF Ev.hold THEN live @@ [id \in { Ev.out[i].id : i \in adm } |->
+                                                [res |-> Ev.res, v |-> v, args |-> Ev.args, atts |-> Ev.atts, ver |-> Ver(Ev.res)]] ELSE live
            pk    == Max(peak, Cardinality(DOMAIN pend) + G)
            thr   == IF lim THEN Thr(Ev.res, v) ELSE -1
            why   == IF Cardinality(ids) # G \/ ids \cap (DOMAIN live \cup DOMAIN pend) # {} THEN "burst-of-known-entry"
@@ -225,15 +300,36 @@ TBurst ==
            /\ peak' = pk
            /\ seen' = seen \cup {<<Ev.res, v>>}
            /\ Judge(why = "ok",
-                    [why |-> why, v |-> v, thr |-> thr, inflight |-> n0, g |-> G, admitted |-> a,
+                    [why |-> why, v |-> v, thr |-> thr, inflight |-> hi0, since |-> n0, g |-> G, admitted |-> a,
+                     res |-> Ev.res, stale |-> (Ev.res \in stale), resel |-> (Ev.res \in resel), over |-> FALSE,
                      \* the number of admitted callers the design allows
                      lo |-> IF ~lim THEN G ELSE IF thr - n0 <= 0 THEN 0 ELSE IF thr - n0 < G THEN thr - n0 ELSE G,
                      hi |-> IF ~lim \/ n0 < thr THEN G ELSE 0,
                      first |-> (<<Ev.res, v>> \notin seen), cap |-> IF lim THEN thr + Max(pk - 1, 0) ELSE -1,
                      live |-> ExpLive(live2)])
-    /\ UNCHANGED <<g, pend>>
+    /\ UNCHANGED <<g, pend, rv, stale, resel>>
 
-TInit == l = 1 /\ live = << >> /\ seen = {} /\ g = [tr |-> 0, rules |-> << >>] /\ pend = << >> /\ peak = 0 /\ failed = FALSE
-TNext == TNew \/ TReq \/ TChk \/ TRec \/ TExit \/ TProbe \/ TStress \/ TBurst
+\* Reload of HotParamConc: the rule table was replaced (Ev.rules = the table now in force, Ev.via = "load" | "res" | "clear").
+\* Per resource: the rule version is bumped when its rule changed (or was cleared and loaded again); the counters in use start
+\* anew (base = the new version) when the rule was cleared, the resource had no rule, or its capacity changed - else they are kept.
+TReload ==
+    /\ IsEvent("reload")
+    /\ LET old == g.rules
+           new == Ev.rules
+           all == DOMAIN old \cup DOMAIN new \cup DOMAIN rv.ver
+           changed(r) == Ev.via = "clear" \/ (r \in DOMAIN old) # (r \in DOMAIN new) \/ (r \in DOMAIN old /\ r \in DOMAIN new /\ old[r] # new[r])
+           fresh(r)   == r \in DOMAIN new /\ (Ev.via = "clear" \/ r \notin DOMAIN old \/ old[r].cap # new[r].cap)
+           ver2 == [r \in all |-> IF changed(r) THEN Ver(r) + 1 ELSE Ver(r)]
+       IN  /\ g' = [g EXCEPT !.rules = new]
+           /\ rv' = [ver |-> ver2, base |-> [r \in all |-> IF fresh(r) THEN ver2[r] ELSE Base(r)]]
+           /\ stale' = { r \in stale : ~fresh(r) }
+           /\ resel' = { r \in resel : ~fresh(r) }
+           /\ Judge(Ev.n = Cardinality(DOMAIN new) /\ LiveArgsOK(Ev.live, live),
+                    [why |-> IF Ev.n # Cardinality(DOMAIN new) THEN "reload-rules-not-in-force" ELSE "live-args", live |-> ExpLive(live)])
+    /\ UNCHANGED <<live, seen, pend, peak>>
+
+TInit == /\ l = 1 /\ live = << >> /\ seen = {} /\ g = [tr |-> 0, rules |-> << >>] /\ pend = << >> /\ peak = 0
+         /\ rv = [ver |-> << >>, base |-> << >>] /\ stale = {} /\ resel = {} /\ failed = FALSE
+TNext == TNew \/ TReq \/ TChk \/ TRec \/ TExit \/ TProbe \/ TStress \/ TBurst \/ TReload
 TSpec == TInit /\ [][TNext]_tvars
 =============================================================================
